@@ -81,6 +81,14 @@ class AstToSqlAlchemyOrmVisitor(common._CommonVisitors, visitor.NodeVisitor):
             )
             subq_transformer = self.__class__(collection_model)
             subquery_filter = subq_transformer.visit(subq_ast)
+            if subq_transformer.join_relationships:
+                # The EXISTS built by `relationship.any()` cannot carry the joins a
+                # navigation inside the lambda needs; without them the related table
+                # is cross-joined and unrelated rows satisfy the predicate.
+                raise ex.TypeException(
+                    "lambda_expression",
+                    str(subq_transformer.join_relationships[0]),
+                )
         else:
             subquery_filter = None
 
